@@ -1,7 +1,113 @@
 import GluonModel.Sexp
-open GluonModel
+import GluonModel.FindPos
+open GluonModel GluonModel.FindPos
+
+/-
+Request:  (find <len> (names "x" …) <expr>)
+  expr := (L lo hi) | (Z lo hi) | (O lo hi expr…) | (I lo hi expr oplo ophi expr) | (P lo hi expr)
+        | (F lo hi (arg…) expr) | (B lo hi rec (bind…) expr) | (M lo hi expr (alt…))
+        | (R lo hi (field…) [expr]) | (E lo hi)
+  arg  := (lo hi id)      bind := (pat (arg…) expr)     alt := (pat expr)
+  field := (lo hi) | (lo hi expr)
+  pat  := (pl lo hi [id]) | (pt lo hi pat…) | (pc lo hi idlen pat…) | (pa lo hi id pat)
+Answer: one result per byte offset 0 … len+2:
+  (<found> (<enclosing, in push order>) (<near, in push order>) <sugg>) | panic | fuel
+-/
+
+def nat? (s : Sexp) : Option Nat := s.toNat?
+
+def parseArg : Sexp → Option Arg
+  | .list [a, b, c] => do pure ⟨⟨← nat? a, ← nat? b⟩, ← nat? c⟩
+  | _ => none
+
+mutual
+partial def parsePat : Sexp → Option Pat
+  | .list [.atom "pl", a, b] => do pure (.leaf ⟨← nat? a, ← nat? b⟩ none)
+  | .list [.atom "pl", a, b, c] => do pure (.leaf ⟨← nat? a, ← nat? b⟩ (some (← nat? c)))
+  | .list (.atom "pt" :: a :: b :: ps) => do pure (.tuple ⟨← nat? a, ← nat? b⟩ (← parsePats ps))
+  | .list (.atom "pc" :: a :: b :: n :: ps) => do
+    pure (.ctor ⟨← nat? a, ← nat? b⟩ (← nat? n) (← parsePats ps))
+  | .list [.atom "pa", a, b, c, p] => do pure (.as_ ⟨← nat? a, ← nat? b⟩ (← nat? c) (← parsePat p))
+  | _ => none
+partial def parsePats : List Sexp → Option (List Pat)
+  | [] => some []
+  | p :: ps => do pure ((← parsePat p) :: (← parsePats ps))
+end
+
+mutual
+partial def parseExpr : Sexp → Option Expr
+  | .list [.atom "L", a, b] => do pure (.leaf ⟨← nat? a, ← nat? b⟩)
+  | .list [.atom "Z", a, b] => do pure (.emptyNode ⟨← nat? a, ← nat? b⟩)
+  | .list [.atom "E", a, b] => do pure (.error ⟨← nat? a, ← nat? b⟩)
+  | .list (.atom "O" :: a :: b :: cs) => do pure (.one ⟨← nat? a, ← nat? b⟩ (← parseExprs cs))
+  | .list [.atom "I", a, b, l, c, d, r] => do
+    pure (.infix ⟨← nat? a, ← nat? b⟩ (← parseExpr l) ⟨← nat? c, ← nat? d⟩ (← parseExpr r))
+  | .list [.atom "P", a, b, e] => do pure (.proj ⟨← nat? a, ← nat? b⟩ (← parseExpr e))
+  | .list [.atom "F", a, b, .list args, e] => do
+    pure (.lambda ⟨← nat? a, ← nat? b⟩ (← args.mapM parseArg) (← parseExpr e))
+  | .list [.atom "B", a, b, r, .list binds, e] => do
+    pure (.letb ⟨← nat? a, ← nat? b⟩ ((← nat? r) != 0) (← parseBinds binds) (← parseExpr e))
+  | .list [.atom "M", a, b, e, .list alts] => do
+    pure (.matchE ⟨← nat? a, ← nat? b⟩ (← parseExpr e) (← parseAlts alts))
+  | .list [.atom "R", a, b, .list fs] => do
+    pure (.record ⟨← nat? a, ← nat? b⟩ (← parseFields fs) none)
+  | .list [.atom "R", a, b, .list fs, e] => do
+    pure (.record ⟨← nat? a, ← nat? b⟩ (← parseFields fs) (some (← parseExpr e)))
+  | _ => none
+partial def parseExprs : List Sexp → Option (List Expr)
+  | [] => some []
+  | p :: ps => do pure ((← parseExpr p) :: (← parseExprs ps))
+partial def parseBinds : List Sexp → Option (List LBind)
+  | [] => some []
+  | .list [p, .list args, e] :: bs => do
+    pure (LBind.mk (← parsePat p) (← args.mapM parseArg) (← parseExpr e) :: (← parseBinds bs))
+  | _ => none
+partial def parseAlts : List Sexp → Option (List Alt)
+  | [] => some []
+  | .list [p, e] :: bs => do pure (Alt.mk (← parsePat p) (← parseExpr e) :: (← parseAlts bs))
+  | _ => none
+partial def parseFields : List Sexp → Option (List Field)
+  | [] => some []
+  | .list [a, b] :: fs => do pure (Field.mk ⟨← nat? a, ← nat? b⟩ none :: (← parseFields fs))
+  | .list [a, b, e] :: fs => do
+    pure (Field.mk ⟨← nat? a, ← nat? b⟩ (some (← parseExpr e)) :: (← parseFields fs))
+  | _ => none
+end
+
+def renderM (m : M) : String :=
+  let k := match m.kind, m.tag with
+    | .expr, .plain => "e" | .expr, .proj => "ep" | .expr, .record => "er"
+    | .pattern, _ => "p" | .ident, _ => "i"
+  s!"({k} {m.span.lo} {m.span.hi})"
+
+def insertSorted (x : String) : List String → List String
+  | [] => [x]
+  | y :: ys => if x < y then x :: y :: ys else y :: insertSorted x ys
+
+def sortStrings (xs : List String) : List String := xs.foldl (fun acc x => insertSorted x acc) []
+
+def renderOut (names : Array String) : Out → String
+  | .panic => "panic"
+  | .fuel => "fuel"
+  | .ok st =>
+    let f := match st.found with
+      | .notFound => "N" | .empty => "E" | .found m => "(F " ++ renderM m ++ ")"
+    let ms (l : List M) := "(" ++ " ".intercalate (l.reverse.map renderM) ++ ")"
+    let s := match suggest st with
+      | .skip => "skip"
+      | .names ids =>
+        "(S" ++ String.join ((sortStrings (ids.map (fun i => names.getD i "?"))).map
+          (fun n => " " ++ Sexp.quote n)) ++ ")"
+    s!"({f} {ms st.enclosing} {ms st.near} {s})"
 
 def handle : List Sexp → String
-  | _ => "unimplemented"
+  | [.atom "find", len, .list (.atom "names" :: ns), tree] =>
+    match nat? len, parseExpr tree, ns.mapM Sexp.str? with
+    | some len, some e, some ns =>
+      let names := ns.toArray
+      let outs := (List.range (len + 3)).map (fun pos => renderOut names (complete pos 100000 e))
+      "(" ++ " ".intercalate outs ++ ")"
+    | _, _, _ => "bad-request"
+  | _ => "bad-request"
 
 def main : IO Unit := driverLoop handle
